@@ -179,13 +179,13 @@ PROPS = {
         level="exploration",
         engine="simnet",
         technique="runtime monitoring with catch_unwind and a provider-access budget around every EEPROM-derived query and around init+configuration on a simulated device carrying the image; the same binary is run as a debug build (overflow checks on) and as a release build (wrapping arithmetic)",
-        level_text=("Tens of thousands of arbitrary, structured-then-mutated and adversarial images per run (random bytes, blank, all ones, category length 0xFFFF, wrap-to-self and wrap-to-earlier chains, size word >= 511, string index past the table, several 255x255-bit PDOs on one sync manager, truncated, lying string tables, no end marker, runs of empty categories), both chunk sizes, 25 queries each + full init/into_safe_op for 1 in 40. "
+        level_text=("Tens of thousands of arbitrary, structured-then-mutated and adversarial images per run (random bytes, blank, all ones, category length 0xFFFF, wrap-to-self and wrap-to-earlier chains, chains whose next header lies at words 0xfffc..0xffff, string tables with count 0, size word >= 511, string index past the table, several 255x255-bit PDOs on one sync manager, truncated, lying string tables, no end marker, runs of empty categories), both chunk sizes, 25 queries each + full init/into_safe_op for 1 in 40. "
                     "Held = no panic and no query needing more than 70000 provider accesses (bounded walk), in both builds."),
         level_note="'Loop forever' is restated as exceeding 70000 provider accesses (more than one pass over the 64 Ki-word address space); a wall-clock watchdog firing is inconclusive, never a violation.",
         rule="case = one image; non-trivial = not all-zero/all-ones; distinct by content hash",
         assumptions=[],
         min_distinct=dict(quick=12000, thorough=800000),
-        required_counters=["image.wrap-to-self", "image.wrap-to-earlier", "image.category-len-ffff", "image.size-word-large", "image.string-index-past-table", "image.pdo-255x255", "image.blank-zero", "image.blank-ones", "init_runs", "query.tx_pdos"],
+        required_counters=["image.wrap-to-self", "image.wrap-to-earlier", "image.category-len-ffff", "image.size-word-large", "image.string-index-past-table", "image.pdo-255x255", "image.blank-zero", "image.blank-ones", "image.next-header-at-top-of-address-space", "image.string-table-count-zero", "init_runs", "query.tx_pdos"],
         runs=[native("sii-fuzz-release", "c13", "release"), native("sii-fuzz-debug", "c13", "debug", args={"scale-pct": dict(quick=60, thorough=20)})],
     ),
     "C14": dict(
